@@ -4,6 +4,9 @@ package main
 // ReadWithDirectory / readLocalHeader / readDataDesc / GetTotalSize / GetDirectoryHeader / WriteDirectory /
 // NewFile / AddFile / GetOriginalDirectory, the struct literals the writer serialises (in struct field order),
 // the order of sequential binary.Read calls, and fingerprints of the hand-modelled loops.
+// Whole-body translations by state passing (c17Block): Directory.AddFile (af_step), File.GetDirectoryHeader (gdh_step, with its
+// assignment to f.Extra) and the loop body of WriteDirectory (wd_loop_step); CheckContiguous / Mangle / Mangler.NewFile /
+// MakePatch conditions, call order and call arguments; the fields of the File that NewFile registers.
 
 import (
 	"fmt"
@@ -284,10 +287,474 @@ func (o *out) c17SwitchCase(fs funcSpec, nth, k int) {
 		strings.ReplaceAll(printNode(p.fset, found), "*)", "* )"))
 }
 
+// ---------------------------------------------------------------- imperative blocks (state passing)
+//
+// c17Block translates a loop-free statement list WITH side effects (assignments to receiver fields, struct-typed
+// locals, a bytes.Buffer) into one Gallina function by state passing: every mutable Go location is a Coq variable
+// that is re-bound by `let`; an `if` whose branches assign returns the tuple of the variables it assigns.
+// Any statement that is not one of the listed forms — a call to a new helper, an assignment to a location that is
+// not declared as state, a changed error path — is a broken tie, so the dependent model no longer compiles.
+
+type c17Var struct {
+	goName string // printed Go l-value (state) or identifier (local)
+	coq    string
+	typ    string // "Z" | "bytes" | "struct:<GoType>"
+}
+
+type c17BlockSpec struct {
+	funcSpec
+	state    []c17Var          // mutable locations that outlive the function
+	skips    []string          // exact statements (whitespace-normalised) that are expected and have no modelled effect
+	structs  map[string]string // Go wire-struct type -> Coq prefix (cdh, z64x, ...)
+	rangeOf  string            // when set: translate the body of `for ... := range <rangeOf>` instead of the function body
+	retFirst string            // "expr": result = (first result, state...) ; otherwise the printed first result must equal retFirst
+}
+
+type c17Blk struct {
+	o     *out
+	p     *pkgInfo
+	t     *tr
+	sp    c17BlockSpec
+	scope []c17Var
+	seen  []int
+	err   error
+}
+
+func c17Norm(s string) string { return strings.Join(strings.Fields(s), " ") }
+
+func (b *c17Blk) fail(format string, a ...interface{}) string {
+	if b.err == nil {
+		b.err = fmt.Errorf(format, a...)
+	}
+	return "BROKEN"
+}
+
+func (b *c17Blk) lookup(goName string) *c17Var {
+	for i := len(b.scope) - 1; i >= 0; i-- {
+		if b.scope[i].goName == goName {
+			return &b.scope[i]
+		}
+	}
+	for i := range b.sp.state {
+		if b.sp.state[i].goName == goName {
+			return &b.sp.state[i]
+		}
+	}
+	return nil
+}
+
+func (b *c17Blk) expr(e ast.Expr, want string) string {
+	s := printNode(b.p.fset, e)
+	if id, ok := e.(*ast.Ident); ok && id.Name == "nil" {
+		if want == "bytes" {
+			return "[]"
+		}
+		return b.fail("nil where %s is expected", want)
+	}
+	if cl, ok := e.(*ast.CompositeLit); ok {
+		if id, ok := cl.Type.(*ast.Ident); ok {
+			if _, known := b.sp.structs[id.Name]; known {
+				return b.structLit(cl, id.Name)
+			}
+		}
+		return b.fail("composite literal %s", s)
+	}
+	if ce, ok := e.(*ast.CallExpr); ok && printNode(b.p.fset, ce.Fun) == "bytes.NewBuffer" && len(ce.Args) == 1 {
+		if strings.HasPrefix(c17Norm(printNode(b.p.fset, ce.Args[0])), "make([]byte, 0,") {
+			return "[]"
+		}
+		return b.fail("bytes.NewBuffer over a non-empty slice: %s", s)
+	}
+	r := b.t.expr(e)
+	if b.t.err != nil && b.err == nil {
+		b.err = b.t.err
+	}
+	return r
+}
+
+func (b *c17Blk) structLit(cl *ast.CompositeLit, typ string) string {
+	fields := c17StructFields(b.sp.dir, typ)
+	if fields == nil {
+		return b.fail("struct %s not found", typ)
+	}
+	vals := map[string]string{}
+	for _, el := range cl.Elts {
+		kv, ok := el.(*ast.KeyValueExpr)
+		if !ok {
+			return b.fail("positional composite literal of %s", typ)
+		}
+		vals[printNode(b.p.fset, kv.Key)] = b.expr(kv.Value, "Z")
+	}
+	var items []string
+	for _, f := range fields {
+		if v, ok := vals[f]; ok {
+			items = append(items, v)
+			delete(vals, f)
+		} else {
+			items = append(items, "0")
+		}
+	}
+	if len(vals) != 0 {
+		return b.fail("literal of %s has keys that are not struct fields", typ)
+	}
+	return "[" + strings.Join(items, "; ") + "]"
+}
+
+func (b *c17Blk) typeOfRHS(e ast.Expr) string {
+	if cl, ok := e.(*ast.CompositeLit); ok {
+		if id, ok := cl.Type.(*ast.Ident); ok {
+			if _, known := b.sp.structs[id.Name]; known {
+				return "struct:" + id.Name
+			}
+		}
+	}
+	if ce, ok := e.(*ast.CallExpr); ok && printNode(b.p.fset, ce.Fun) == "bytes.NewBuffer" {
+		return "bytes"
+	}
+	if ty, ok := b.t.types[printNode(b.p.fset, e)]; ok && ty == "bytes" {
+		return "bytes"
+	}
+	return "Z"
+}
+
+// writes: Coq names of variables visible in the enclosing scope that the statement list assigns
+func (b *c17Blk) writes(list []ast.Stmt, acc map[string]bool, local map[string]bool) {
+	mark := func(goName string) {
+		if local[goName] {
+			return
+		}
+		if v := b.lookup(goName); v != nil {
+			acc[v.coq] = true
+		}
+	}
+	for _, s := range list {
+		switch x := s.(type) {
+		case *ast.AssignStmt:
+			if len(x.Lhs) != 1 {
+				continue
+			}
+			l := printNode(b.p.fset, x.Lhs[0])
+			if x.Tok == token.DEFINE {
+				local[l] = true
+				continue
+			}
+			if l == "_" && len(x.Rhs) == 1 {
+				if ce, ok := x.Rhs[0].(*ast.CallExpr); ok && len(ce.Args) > 0 {
+					mark(printNode(b.p.fset, ce.Args[0]))
+				}
+				continue
+			}
+			if se, ok := x.Lhs[0].(*ast.SelectorExpr); ok {
+				if v := b.lookup(printNode(b.p.fset, se.X)); v != nil && strings.HasPrefix(v.typ, "struct:") {
+					mark(v.goName)
+					continue
+				}
+			}
+			mark(l)
+		case *ast.IncDecStmt:
+			mark(printNode(b.p.fset, x.X))
+		case *ast.ExprStmt:
+			if ce, ok := x.X.(*ast.CallExpr); ok {
+				if se, ok := ce.Fun.(*ast.SelectorExpr); ok {
+					mark(printNode(b.p.fset, se.X))
+				}
+			}
+		case *ast.IfStmt:
+			inner := map[string]bool{}
+			for k, v := range local {
+				inner[k] = v
+			}
+			b.writes(x.Body.List, acc, inner)
+			if eb, ok := x.Else.(*ast.BlockStmt); ok {
+				inner2 := map[string]bool{}
+				for k, v := range local {
+					inner2[k] = v
+				}
+				b.writes(eb.List, acc, inner2)
+			}
+		}
+	}
+}
+
+func (b *c17Blk) define(name, typ string) string {
+	coq := "v_" + name
+	b.scope = append(b.scope, c17Var{goName: name, coq: coq, typ: typ})
+	b.t.locals[name] = coq
+	if typ == "bytes" {
+		b.t.leaves[name+".Bytes()"] = coq
+		b.t.leaves[name+".Len()"] = "(zlen " + coq + ")"
+	}
+	return coq
+}
+
+func endsWithReturn(list []ast.Stmt) bool {
+	if len(list) == 0 {
+		return false
+	}
+	_, ok := list[len(list)-1].(*ast.ReturnStmt)
+	return ok
+}
+
+// seq translates list; fin produces the term used when the list falls through.
+func (b *c17Blk) seq(list []ast.Stmt, fin func() string) string {
+	if b.err != nil {
+		return "BROKEN"
+	}
+	if len(list) == 0 {
+		return fin()
+	}
+	s, tail := list[0], list[1:]
+	txt := c17Norm(printNode(b.p.fset, s))
+	for i, sk := range b.sp.skips {
+		if txt == sk {
+			b.seen = append(b.seen, i)
+			return b.seq(tail, fin)
+		}
+	}
+	bind := func(coq, val string) string {
+		return "(let " + coq + " := " + val + " in\n   " + b.seq(tail, fin) + ")"
+	}
+	switch x := s.(type) {
+	case *ast.ReturnStmt:
+		if len(x.Results) == 0 {
+			return b.fail("bare return")
+		}
+		if last := printNode(b.p.fset, x.Results[len(x.Results)-1]); len(x.Results) > 1 && last != "nil" {
+			return b.fail("error return that is not declared: %s", txt)
+		}
+		return b.ret(x.Results[0])
+	case *ast.IncDecStmt:
+		v := b.lookup(printNode(b.p.fset, x.X))
+		if v == nil || v.typ != "Z" {
+			return b.fail("++/-- on an undeclared location: %s", txt)
+		}
+		op := " + 1"
+		if x.Tok == token.DEC {
+			op = " - 1"
+		}
+		return bind(v.coq, "("+v.coq+op+")")
+	case *ast.AssignStmt:
+		if len(x.Lhs) != 1 || len(x.Rhs) != 1 {
+			return b.fail("unsupported assignment %s", txt)
+		}
+		l := printNode(b.p.fset, x.Lhs[0])
+		if x.Tok == token.DEFINE {
+			if _, ok := x.Lhs[0].(*ast.Ident); !ok {
+				return b.fail("unsupported definition %s", txt)
+			}
+			typ := b.typeOfRHS(x.Rhs[0])
+			want := typ
+			val := b.expr(x.Rhs[0], want)
+			mark := len(b.scope)
+			coq := b.define(l, typ)
+			_ = mark
+			return bind(coq, val)
+		}
+		if l == "_" {
+			// _ = binary.Write(b, binary.LittleEndian, X)
+			ce, ok := x.Rhs[0].(*ast.CallExpr)
+			if ok && printNode(b.p.fset, ce.Fun) == "binary.Write" && len(ce.Args) == 3 && printNode(b.p.fset, ce.Args[1]) == "binary.LittleEndian" {
+				buf := b.lookup(printNode(b.p.fset, ce.Args[0]))
+				st := b.lookup(printNode(b.p.fset, ce.Args[2]))
+				if buf != nil && buf.typ == "bytes" && st != nil && strings.HasPrefix(st.typ, "struct:") {
+					pre := b.sp.structs[st.typ[7:]]
+					return bind(buf.coq, "("+buf.coq+" ++ g_enc_struct "+pre+"_widths "+st.coq+")")
+				}
+			}
+			return b.fail("unsupported statement %s", txt)
+		}
+		if se, ok := x.Lhs[0].(*ast.SelectorExpr); ok {
+			if v := b.lookup(printNode(b.p.fset, se.X)); v != nil && strings.HasPrefix(v.typ, "struct:") {
+				if x.Tok != token.ASSIGN {
+					return b.fail("unsupported struct field update %s", txt)
+				}
+				pre := b.sp.structs[v.typ[7:]]
+				ok := false
+				for _, f := range c17StructFields(b.sp.dir, v.typ[7:]) {
+					if f == se.Sel.Name {
+						ok = true
+					}
+				}
+				if !ok {
+					return b.fail("no field %s in %s", se.Sel.Name, v.typ[7:])
+				}
+				return bind(v.coq, "(g_set_field "+pre+"_widths "+v.coq+" 0 "+pre+"_off_"+se.Sel.Name+" "+b.expr(x.Rhs[0], "Z")+")")
+			}
+		}
+		v := b.lookup(l)
+		if v == nil || strings.HasPrefix(v.typ, "struct:") {
+			return b.fail("assignment to a location that is not modelled state: %s", txt)
+		}
+		switch x.Tok {
+		case token.ASSIGN:
+			return bind(v.coq, b.expr(x.Rhs[0], v.typ))
+		case token.ADD_ASSIGN:
+			if v.typ != "Z" {
+				return b.fail("+= on %s", v.typ)
+			}
+			return bind(v.coq, "("+v.coq+" + "+b.expr(x.Rhs[0], "Z")+")")
+		}
+		return b.fail("unsupported assignment operator in %s", txt)
+	case *ast.ExprStmt:
+		// b.Write(x) / b.WriteString(x) on a buffer local
+		if ce, ok := x.X.(*ast.CallExpr); ok && len(ce.Args) == 1 {
+			if se, ok := ce.Fun.(*ast.SelectorExpr); ok && (se.Sel.Name == "Write" || se.Sel.Name == "WriteString") {
+				if buf := b.lookup(printNode(b.p.fset, se.X)); buf != nil && buf.typ == "bytes" {
+					return bind(buf.coq, "("+buf.coq+" ++ "+b.expr(ce.Args[0], "bytes")+")")
+				}
+			}
+		}
+		return b.fail("unsupported statement %s", txt)
+	case *ast.IfStmt:
+		if x.Init != nil {
+			return b.fail("if with init: %s", txt)
+		}
+		cond := b.expr(x.Cond, "bool")
+		depth := len(b.scope)
+		restore := func() {
+			for _, v := range b.scope[depth:] {
+				delete(b.t.locals, v.goName)
+			}
+			b.scope = b.scope[:depth]
+		}
+		if x.Else == nil && endsWithReturn(x.Body.List) {
+			th := b.seq(x.Body.List, func() string { return b.fail("unreachable") })
+			restore()
+			return "(if " + cond + " then " + th + "\n   else " + b.seq(tail, fin) + ")"
+		}
+		acc := map[string]bool{}
+		b.writes(x.Body.List, acc, map[string]bool{})
+		var elseList []ast.Stmt
+		switch e := x.Else.(type) {
+		case nil:
+		case *ast.BlockStmt:
+			elseList = e.List
+			b.writes(e.List, acc, map[string]bool{})
+		default:
+			return b.fail("else-if chain: %s", txt)
+		}
+		var names []string
+		for _, v := range b.sp.state {
+			if acc[v.coq] {
+				names = append(names, v.coq)
+			}
+		}
+		for _, v := range b.scope {
+			if acc[v.coq] {
+				names = append(names, v.coq)
+			}
+		}
+		if len(names) == 0 {
+			b.seq(x.Body.List, func() string { return "tt" }) // surfaces the statement that cannot be translated
+			return b.fail("if without modelled effect: %s", txt)
+		}
+		tuple := names[0]
+		pat := names[0]
+		if len(names) > 1 {
+			tuple = "(" + strings.Join(names, ", ") + ")"
+			pat = "'" + tuple
+		}
+		th := b.seq(x.Body.List, func() string { return tuple })
+		restore()
+		el := b.seq(elseList, func() string { return tuple })
+		restore()
+		return "(let " + pat + " := (if " + cond + " then " + th + " else " + el + ") in\n   " + b.seq(tail, fin) + ")"
+	}
+	return b.fail("unsupported statement %s", txt)
+}
+
+func (b *c17Blk) stateTuple(first string) string {
+	var names []string
+	if first != "" {
+		names = append(names, first)
+	}
+	for _, v := range b.sp.state {
+		names = append(names, v.coq)
+	}
+	if len(names) == 1 {
+		return names[0]
+	}
+	return "(" + strings.Join(names, ", ") + ")"
+}
+
+func (b *c17Blk) ret(first ast.Expr) string {
+	if b.sp.retFirst == "expr" {
+		return b.stateTuple(b.expr(first, "bytes"))
+	}
+	if got := printNode(b.p.fset, first); got != b.sp.retFirst {
+		return b.fail("returns %s, expected %s", got, b.sp.retFirst)
+	}
+	return b.stateTuple("")
+}
+
+func (o *out) c17Block(sp c17BlockSpec) {
+	p, fd := findFunc(sp.dir, sp.recv, sp.name)
+	if fd == nil {
+		o.brokenDef(sp.coqName, "function "+sp.dir+":"+sp.recv+"."+sp.name+" not found")
+		return
+	}
+	list := fd.Body.List
+	if sp.rangeOf != "" {
+		list = nil
+		ast.Inspect(fd.Body, func(n ast.Node) bool {
+			if rs, ok := n.(*ast.RangeStmt); ok && list == nil && printNode(p.fset, rs.X) == sp.rangeOf {
+				list = rs.Body.List
+				return false
+			}
+			return true
+		})
+		if list == nil {
+			o.brokenDef(sp.coqName, "no `range "+sp.rangeOf+"` loop in "+sp.name)
+			return
+		}
+	}
+	b := &c17Blk{o: o, p: p, sp: sp}
+	b.t = o.newTr(p, sp.funcSpec)
+	// private copies: the translator adds leaves for buffer locals
+	lv := map[string]string{}
+	for k, v := range sp.leaves {
+		lv[k] = v
+	}
+	for _, v := range sp.state {
+		lv[v.goName] = v.coq
+	}
+	b.t.leaves = lv
+	fin := func() string { return b.fail("falls off the end of %s", sp.name) }
+	if sp.rangeOf != "" {
+		fin = func() string { return b.stateTuple("") }
+	}
+	body := b.seq(list, fin)
+	if b.err == nil && b.t.err != nil {
+		b.err = b.t.err
+	}
+	if b.err != nil {
+		o.brokenDef(sp.coqName, b.err.Error())
+		return
+	}
+	var seen []string
+	for _, i := range b.seen {
+		seen = append(seen, strconv.Itoa(i))
+	}
+	o.f("Definition %s %s : %s :=\n  %s.\n(* whole body of %s:%s.%s%s, state: %s *)\n", sp.coqName, sp.params, sp.retType, body, sp.dir, sp.recv, sp.name,
+		map[bool]string{true: " (loop over " + sp.rangeOf + ")", false: ""}[sp.rangeOf != ""], func() string {
+			var s []string
+			for _, v := range sp.state {
+				s = append(s, v.goName)
+			}
+			return strings.Join(s, ", ")
+		}())
+	o.f("Definition %s_skipped : list Z := [%s]. (* statements without modelled effect met in order; index into: %s *)\n", sp.coqName,
+		strings.Join(seen, "; "), strings.ReplaceAll(strings.Join(sp.skips, " | "), "*)", "* )"))
+}
+
 func init() {
 	generators["C17_gen"] = func(o *out) {
 		const d = "lib/zipslicer"
+		o.f("From Relic Require Import Base.Enc.\n")
 		o.f("Definition u32 (x : Z) : Z := x mod 4294967296.\nDefinition u16 (x : Z) : Z := x mod 65536.\n")
+		// helpers of the whole-body translations (c17Block): binary.Write of a struct value, assignment to one struct field
+		o.f("Definition g_enc_struct (ws vs : list Z) : bytes :=\n  concat (map (fun p => le_enc (Z.to_nat (fst p)) (snd p)) (combine ws vs)).\n")
+		o.f("Fixpoint g_set_field (ws vs : list Z) (cur off v : Z) : list Z :=\n  match ws, vs with\n  | w :: ws', x :: vs' => (if cur =? off then v else x) :: g_set_field ws' vs' (cur + w) off v\n  | _, _ => vs\n  end.\n")
 		for _, c := range []string{"fileHeaderSignature", "directoryHeaderSignature", "directoryEndSignature", "directory64LocSignature",
 			"directory64EndSignature", "dataDescriptorSignature", "fileHeaderLen", "directoryHeaderLen", "directoryEndLen",
 			"directory64LocLen", "directory64EndLen", "dataDescriptorLen", "dataDescriptor64Len", "zip64ExtraID", "zip64ExtraLen",
@@ -383,7 +850,7 @@ func init() {
 		ghL := map[string]string{"len(f.raw)": "raw_len", "f.CreatorVersion": "creator", "f.ReaderVersion": "reader", "f.Flags": "flags",
 			"f.Method": "method", "f.ModifiedTime": "mtime", "f.ModifiedDate": "mdate", "f.CRC32": "crc", "f.CompressedSize": "csize",
 			"f.UncompressedSize": "usize", "f.InternalAttrs": "iattrs", "f.ExternalAttrs": "eattrs", "f.Offset": "offset",
-			"len(f.Name)": "name_len", "len(f.Extra)": "extra_len", "len(f.Comment)": "comment_len", "b.Len()": "new_extra_len"}
+			"len(f.Name)": "name_len", "len(f.Extra)": "extra_len", "len(f.Comment)": "comment_len", "b.Len()": "new_extra_len", "len(extraField)": "new_extra_len"}
 		gh := func(coq, params, ret string) funcSpec {
 			return funcSpec{dir: d, recv: "File", name: "GetDirectoryHeader", coqName: coq, params: params, retType: ret, leaves: ghL, calls: conv}
 		}
@@ -444,6 +911,76 @@ func init() {
 		o.exprOfAssign(funcSpec{dir: d, recv: "Directory", name: "AddFile", coqName: "af_offset", params: "(dirloc : Z)", retType: "Z", leaves: afL}, "offset", 0)
 		o.condOf(funcSpec{dir: d, recv: "Directory", name: "AddFile", coqName: "af_drop_raw", params: "(f_offset offset : Z)", retType: "bool", leaves: afL}, "if:f.Offset")
 		o.hasStmt(d, "Directory", "AddFile", "d.DirLoc += size", "af_advances_dirloc")
+		// ---------------- whole bodies (state passing): AddFile, GetDirectoryHeader, the loop of WriteDirectory, CheckContiguous
+		wire := map[string]string{"zipCentralDir": "cdh", "zip64Extra": "z64x"}
+		o.c17Block(c17BlockSpec{
+			funcSpec: funcSpec{dir: d, recv: "Directory", name: "AddFile", coqName: "af_step", params: "(size : Z) (s_raw : bytes) (s_offset s_dirloc : Z)",
+				retType: "bytes * Z * Z", leaves: map[string]string{"size": "size"}},
+			state:    []c17Var{{"f.raw", "s_raw", "bytes"}, {"f.Offset", "s_offset", "Z"}, {"d.DirLoc", "s_dirloc", "Z"}},
+			skips:    []string{"size, err := f.GetTotalSize()", "if err != nil { return nil, err }", "d.File = append(d.File, f)"},
+			retFirst: "f"})
+		// f.Extra is declared as state although the body no longer assigns it: the generated function returns its final value, and
+		// the theorem getdirectoryheader_keeps_extra states that it is the initial one (a second WriteDirectory emits the same bytes).
+		// wz64 stands for withoutZip64Extra (a loop; modelled in C17/Model.v from the conditions generated below).
+		o.c17Block(c17BlockSpec{
+			funcSpec: funcSpec{dir: d, recv: "File", name: "GetDirectoryHeader", coqName: "gdh_step",
+				params:  "(wz64 : bytes -> bytes) (s_raw s_name s_extra s_comment : bytes) (creator reader flags method mtime mdate crc csize usize iattrs eattrs offset : Z)",
+				retType: "bytes * bytes", calls: map[string]string{"uint32": "u32", "uint16": "u16", "len": "zlen", "withoutZip64Extra": "wz64"},
+				types: map[string]string{"f.Extra": "bytes"},
+				leaves: map[string]string{"len(f.raw)": "(zlen s_raw)", "f.raw": "s_raw", "f.Name": "s_name", "f.Comment": "s_comment",
+					"len(f.Name)": "(zlen s_name)", "len(f.Extra)": "(zlen s_extra)", "len(f.Comment)": "(zlen s_comment)",
+					"f.CreatorVersion": "creator", "f.ReaderVersion": "reader", "f.Flags": "flags", "f.Method": "method", "f.ModifiedTime": "mtime",
+					"f.ModifiedDate": "mdate", "f.CRC32": "crc", "f.CompressedSize": "csize", "f.UncompressedSize": "usize",
+					"f.InternalAttrs": "iattrs", "f.ExternalAttrs": "eattrs", "f.Offset": "offset"}},
+			state:    []c17Var{{"f.Extra", "s_extra", "bytes"}},
+			structs:  wire,
+			retFirst: "expr"})
+		// withoutZip64Extra: loop condition, record size, overrun test, which records are copied; the three slice statements
+		wzL := map[string]string{"len(extra)": "extra_len", "size": "size", "id": "id", "binary.LittleEndian.Uint16(extra[2:])": "rec_len"}
+		wz := func(coq, params, ret string) funcSpec {
+			return funcSpec{dir: d, name: "withoutZip64Extra", coqName: coq, params: params, retType: ret, leaves: wzL}
+		}
+		o.condOf(wz("wz_loop", "(extra_len : Z)", "bool"), "for:len(extra)")
+		o.exprOfAssign(wz("wz_size", "(rec_len : Z)", "Z"), "size", 0)
+		o.condOf(wz("wz_overrun", "(size extra_len : Z)", "bool"), "if:size")
+		o.condOf(wz("wz_keep", "(id : Z)", "bool"), "if:id")
+		o.hasStmt(d, "", "withoutZip64Extra", "out = append(out, extra[:size]...)", "wz_copies_record")
+		o.hasStmt(d, "", "withoutZip64Extra", "extra = extra[size:]", "wz_advances")
+		o.hasStmt(d, "", "withoutZip64Extra", "return append(out, extra...)", "wz_keeps_remainder")
+		fingerprint(d, "", "withoutZip64Extra")
+		o.c17Block(c17BlockSpec{
+			funcSpec: funcSpec{dir: d, recv: "Directory", name: "WriteDirectory", coqName: "wd_loop_step", params: "(reader blob_len : Z) (s_minver s_count s_size : Z)",
+				retType: "Z * Z * Z", leaves: map[string]string{"f.ReaderVersion": "reader", "len(blob)": "blob_len"}},
+			state:   []c17Var{{"minVersion", "s_minver", "Z"}, {"count", "s_count", "Z"}, {"size", "s_size", "Z"}},
+			skips:   []string{"blob, err := f.GetDirectoryHeader()", "if err != nil { return err }", "if _, err := buf.Write(blob); err != nil { return err }"},
+			rangeOf: "d.File"})
+		// CheckContiguous: (refused?, new *pos)
+		ccL := map[string]string{"f.Offset": "f_offset", "*pos": "pos", "size": "size"}
+		o.condOf(funcSpec{dir: d, recv: "File", name: "CheckContiguous", coqName: "cc_refuse", params: "(f_offset pos : Z)", retType: "bool", leaves: ccL}, "if:f.Offset")
+		o.hasStmt(d, "File", "CheckContiguous", "*pos += size", "cc_advances")
+		o.callOrder(d, "File", "CheckContiguous", "cc_calls", []string{"GetTotalSize"})
+		// Mangle: per member callback, contiguity check, then delete (patch over the member) or AddFile; final position check
+		o.callOrder(d, "Directory", "Mangle", "mg_calls", []string{"callback", "CheckContiguous", "GetTotalSize", "Add", "AddFile"})
+		o.condOf(funcSpec{dir: d, recv: "Directory", name: "Mangle", coqName: "mg_delete_branch", params: "(deleted : bool)", retType: "bool",
+			leaves: map[string]string{"mf.deleted": "deleted"}, types: map[string]string{"mf.deleted": "bool"}}, "if:mf.deleted")
+		o.condOf(funcSpec{dir: d, recv: "Directory", name: "Mangle", coqName: "mg_end_refuse", params: "(pos dirloc : Z)", retType: "bool",
+			leaves: map[string]string{"pos": "pos", "d.DirLoc": "dirloc"}}, "if:pos")
+		o.c17CallArg(d, "Directory", "Mangle", "mg_patch_off_arg", "Add", 0, map[string]int{"int64(mf.Offset)": 1})
+		o.c17CallArg(d, "Directory", "Mangle", "mg_patch_size_arg", "Add", 1, map[string]int{"size": 1})
+		o.c17CallArg(d, "Directory", "Mangle", "mg_patch_blob_arg", "Add", 2, map[string]int{"nil": 1})
+		o.c17CallArg(d, "Mangler", "NewFile", "mnf_extra_arg", "NewFile", 1, map[string]int{"nil": 1})
+		o.c17CallArg(d, "Mangler", "NewFile", "mnf_usedesc_arg", "NewFile", 6, map[string]int{"true": 1, "false": 0})
+		o.c17CallArg(d, "Mangler", "MakePatch", "mp_wd_force_arg", "WriteDirectory", 2, map[string]int{"forceZip64": 1})
+		o.c17CallArg(d, "Mangler", "MakePatch", "mp_patch_off_arg", "Add", 0, map[string]int{"m.indir": 1})
+		o.c17CallArg(d, "Mangler", "MakePatch", "mp_patch_size_arg", "Add", 1, map[string]int{"m.insize - m.indir": 1, "m.insize-m.indir": 1})
+		// NewFile: the parsed fields of the File it registers, and the final registration
+		o.c17LitKey(nf("nf_file_method", "(method : Z)", "Z"), "File", 0, "Method")
+		o.c17LitKey(nf("nf_file_crc", "(crc : Z)", "Z"), "File", 0, "CRC32")
+		o.c17LitKey(nf("nf_file_csize", "(csize : Z)", "Z"), "File", 0, "CompressedSize")
+		o.c17LitKey(nf("nf_file_usize", "(usize : Z)", "Z"), "File", 0, "UncompressedSize")
+		o.c17LitKey(nf("nf_file_mtime", "(mtime : Z)", "Z"), "File", 0, "ModifiedTime")
+		o.c17LitKey(nf("nf_file_mdate", "(mdate : Z)", "Z"), "File", 0, "ModifiedDate")
+		o.hasStmt(d, "Directory", "NewFile", "return d.AddFile(f)", "nf_registers")
 		o.exprOfAssign(funcSpec{dir: d, recv: "Mangler", name: "NewFile", coqName: "mnf_deflate", params: "(contents_len : Z)", retType: "bool",
 			leaves: map[string]string{"len(contents)": "contents_len"}}, "deflate", 0)
 		o.condOf(funcSpec{dir: d, recv: "Directory", name: "GetOriginalDirectory", coqName: "god_is_new", params: "(end_sig : Z)", retType: "bool",
